@@ -109,7 +109,7 @@ template <class T, size_t N, size_t M> struct Cfg {
     // configuration plus EVERY line that fails that test are passed on to the driver (which then reports them)
     const bool filter = noinit || (M > 128 && !std::is_same<T, uint32_t>::value);
     mpz_class Q(P::moduli_product());
-    size_t emitted = 0;
+    size_t emitted = 0, failed_emitted = 0;
     for (size_t off = 0; off < pats.size(); off += N) {
       fill(a, pats, off);
       std::array<mpz_t, N> arr; init_arr(arr);
@@ -117,7 +117,9 @@ template <class T, size_t N, size_t M> struct Cfg {
       for (size_t i = 0; i < N; i++) {
         bool ok = mpz_sgn(arr[i]) >= 0 && mpz_cmp(arr[i], Q.get_mpz_t()) < 0;
         for (size_t cm = 0; ok && cm < M; cm++) ok = mpz_fdiv_ui(arr[i], P::get_modulus(cm)) == a(cm, i);
-        if (!filter || !ok || emitted < 4) { emit_lift_line("lift", a, i, arr[i]); emitted++; }
+        // failing lifts: the first 6 of each configuration in full (a tree on which EVERY lift fails would otherwise send
+        // hundreds of thousand-limb lines per configuration through the driver: half an hour instead of a minute)
+        if (!filter || emitted < 4 || (!ok && failed_emitted < 6)) { emit_lift_line("lift", a, i, arr[i]); emitted++; if (!ok) failed_emitted++; }
       }
       clear_arr(arr);
     }
